@@ -6,6 +6,9 @@ EXTENDS ZRoute, TLC
 
 CONSTANTS MaxLen
 
+\* the largest key belongs to a second namespace
+MCNs == [k \in Keys |-> IF \A j \in Keys : j <= k THEN 2 ELSE 1]
+
 KeySeqs == UNION {[1..n -> Keys] : n \in 1..MaxLen}
 ValSeqs(n) == [1..n -> Vals]
 
